@@ -107,4 +107,11 @@ def units():
     add('OffPolicyControl<RetraceL>', ['MDP/Algorithms/RetraceL.hpp'], 'template class %sMDP::OffPolicyControl<%sMDP::RetraceL>;' % (A, A))
     add('OffPolicyControl<TreeBackupL>', ['MDP/Algorithms/TreeBackupL.hpp'], 'template class %sMDP::OffPolicyControl<%sMDP::TreeBackupL>;' % (A, A))
     add('OffPolicyEvaluation<ImportanceSamplingEvaluation>', ['MDP/Algorithms/ImportanceSampling.hpp'], 'template class %sMDP::OffPolicyEvaluation<%sMDP::ImportanceSamplingEvaluation>;' % (A, A))
+    # a user-defined generative model (global namespace, only what the concept asks for): "any program written against the
+    # documented API compiles" — catches unqualified helper calls that only ADL on library types resolves
+    user = ('struct UserGen { size_t getS() const { return 2; } size_t getA() const { return 2; } size_t getO() const { return 2; } double getDiscount() const { return 0.5; }\n'
+            '  std::tuple<size_t,double> sampleSR(size_t, size_t) const { return {0, 0.0}; } std::tuple<size_t,size_t,double> sampleSOR(size_t, size_t) const { return {0, 0, 0.0}; }\n'
+            '  bool isTerminal(size_t) const { return false; } };\n')
+    add('POMCP<UserGen>', ['POMDP/Algorithms/POMCP.hpp'], '#include <tuple>\n' + user + 'template class %sPOMDP::POMCP<UserGen>;' % A)
+    add('MCTS<UserGen>', ['MDP/Algorithms/MCTS.hpp'], '#include <tuple>\n' + user + 'template class %sMDP::MCTS<UserGen>;' % A)
     return [u for u in U if u]
